@@ -248,14 +248,25 @@ def _compile_files_cache(filenames,
                          encoding,
                          cache_dir,
                          numeric_enums):
-    key = [codec.encode('ascii')]
+    # Everything that determines the compiled specification is part
+    # of the key. Variable length parts are length prefixed so that
+    # different inputs can not give the same key.
+    options = repr((any_defined_by_choices,
+                    encoding,
+                    numeric_enums)).encode('utf-8')
+    key = [codec.encode('ascii'),
+           str(len(options)).encode('ascii') + b':',
+           options]
 
     if isinstance(filenames, str):
         filenames = [filenames]
 
     for filename in filenames:
         with open(filename, 'rb') as fin:
-            key.append(fin.read())
+            contents = fin.read()
+
+        key.append(str(len(contents)).encode('ascii') + b':')
+        key.append(contents)
 
     key = b''.join(key)
     cache = diskcache.Cache(cache_dir)
